@@ -9,13 +9,42 @@ package agent
 
 //@ func (*Agent).buildSOCKS5Auth
 //@ prop C21
+//@ modifies *
 //@ ensures a.cfg.SOCKS5.Auth.Enabled ==> len(result) >= 1
 //@ ensures a.cfg.SOCKS5.Auth.Enabled ==> forall i in 0..len(result): !istype(result[i], *socks5.NoAuthAuthenticator)
 
 //@ func (*Agent).initComponents
 //@ prop C21
+//@ modifies *
 //@ at call socks5.NewServer assert a.cfg.SOCKS5.Auth.Enabled ==> len($0.Authenticators) >= 1
 //@ at call socks5.NewServer assert a.cfg.SOCKS5.Auth.Enabled ==> forall i in 0..len($0.Authenticators): !istype($0.Authenticators[i], *socks5.NoAuthAuthenticator)
 
 //@ census[C21] socks5.NewServer in (*Agent).initComponents
 //@ census[C21] socks5.NewHandler in -
+
+// ---- C28: frame handlers change the sleep state only for a command the flooder accepted ----
+// (the flooder's Handle*Command return true only after verification, see internal/flood contracts)
+
+//@ func (*Agent).handleSleepCommand
+//@ prop C28
+//@ modifies *
+//@ after call HandleSleepCommand let accepted = $ret
+//@ at call (*Manager).Sleep assert accepted
+
+//@ func (*Agent).handleWakeCommand
+//@ prop C28
+//@ modifies *
+//@ after call HandleWakeCommand let accepted = $ret
+//@ at call (*Manager).Wake assert accepted
+
+//@ func (*Agent).handleQueuedState
+//@ prop C28
+//@ modifies *
+//@ after call HandleSleepCommand let sleepAccepted = $ret
+//@ after call HandleWakeCommand let wakeAccepted = $ret
+//@ at call (*Manager).Sleep assert sleepAccepted
+//@ at call (*Manager).Wake assert wakeAccepted
+
+//@ census[C28] sleep.(*Manager).Sleep in (*Agent).Start, (*Agent).TriggerSleep, (*Agent).handleQueuedState, (*Agent).handleSleepCommand
+//@ census[C28] sleep.(*Manager).Wake in (*Agent).TriggerWake, (*Agent).doPoll, (*Agent).handleQueuedState, (*Agent).handleWakeCommand
+//@ note Start, TriggerSleep/TriggerWake and doPoll are local paths (configuration, operator request, wake signal raised by handleWakeCommand after acceptance), not frame handlers
